@@ -248,7 +248,7 @@ func runC07(c *Ctx) {
 			}
 		}
 		if n < 2 {
-			anchorFail("C07-D7: found %d stores to eio.Callbacks.OnError in newServerConn / Manager.connect, expected 2", n)
+			c.Undecided("C07-D7: found %d stores to eio.Callbacks.OnError in newServerConn / Manager.connect, expected 2", n)
 		}
 		mu := p.Fn("eio", "Server.maybeUpgrade")
 		k := 0
